@@ -49,6 +49,13 @@ CHECKS = {
         note=PROOF_NOTE + "Modelled, not verified: torch.where broadcasting (index table computed by the harness with torch.expand); the mask-function path of apply_mask is checked structurally and by an oracle.",
         technique="Coq proof (structural induction over an operator-expression IR regenerated from the source; selection lemmas on lists) + bit-exact correspondence",
         design="§6 C03"),
+    "C06": dict(
+        text="center_mask_func's pad / slice arithmetic, centered_disk_mask's centre and membership test and the magic cap are regenerated on every run and proved for every width, count and shape: exactly L contiguous columns inside the width, containing column N//2, "
+             "balanced around it to within one; the cap keeps 1 <= L <= budget; the disc is point-symmetric about (n//2, m//2) and contains it iff r >= 1. Exhaustive exact correspondence (all 1 <= L <= N <= 40; discs up to 14x14). "
+             "ACS subset of the sampling mask, requested line count, contiguity and disc geometry are checked by oracles on all 14 generators x modes x ranks.",
+        note=PROOF_NOTE + "Modelled, not verified: float expressions round(width*fraction) and int(sqrt(rows*cols*scale/pi)) (inputs L and r of the theorems); ACS subset of mask is decided by oracle only; CIRCUS largest-disc ACS (center_fraction 0) only through the subset oracle.",
+        technique="Coq proof (lia over regenerated centre arithmetic) + exhaustive exact correspondence + generator oracles",
+        design="§6 C06"),
     "C12": dict(
         text="Theorems for every file list, slice filter (step 1), context size and index: per-volume ranges are contiguous/ordered/partition 0..len-1, the i-th range holds exactly the admissible slices of file i in order, "
              "the context window has 2c+1 entries with entry j = slice s-c+j or a zero slice, and ConcatDataset's negative-index normalisation + bisect_right + offset lands in the member containing the index. "
